@@ -104,7 +104,7 @@ func (m *M) pickParent(t *rapid.T) (*model.Node, string) {
 // domain, and with it everything the hooks' small depths would otherwise make observable that the
 // shipped constants cannot: storage-served heights are never touched by a reorganisation).
 func (m *M) reorgTooDeep(parent *model.Node, bits uint32) bool {
-	if m.f.RealDepth && !m.f.Crash {
+	if (m.f.RealDepth || m.f.DeepReorgs) && !m.f.Crash {
 		return false // production constants: no hook artefacts, every reorganisation depth is in the domain
 	}
 	// (crash legs keep the precondition also at the real depth: known finding C12-deepreorg)
